@@ -75,11 +75,15 @@ os._exit(code)
 # ---------------------------------------------------------------------------
 # generation of abstract test sets, selections and run options
 
+NAME_POOL = ['alpha', 'alpine', 'al', 'beta', 'bet', 'betamax', 'gamma', 'delta', 't0', 't1', 't10']
+
+
 def gen_tests(rnd: random.Random, n: int) -> T.List[T.Dict[str, T.Any]]:
     tests = []
+    names = rnd.sample(NAME_POOL, n)
     for i in range(n):
         tests.append({
-            'name': f't{i}',
+            'name': names[i],
             'par': rnd.random() < 0.65,
             'prio': rnd.choice([0, 0, 0, 0, 5, -3, 10, 5]),
             'sf': rnd.random() < 0.25,
@@ -106,10 +110,60 @@ def gen_selector(rnd: random.Random) -> T.Dict[str, T.Any]:
                        sel('p', '', False), sel('p', '', True), sel('zz', '', False), sel('zz', x, True)])
 
 
-def gen_selection(rnd: random.Random, allow_slice: bool = True) -> T.Dict[str, T.Any]:
+def gen_name_args(rnd: random.Random, names: T.List[str], unmatched: bool) -> T.List[str]:
+    """Positional test-name arguments: plain names, globs, `p:` / `p:name` forms; overlapping on purpose
+    (a name next to a pattern that matches it, the same name twice); optionally arguments matching nothing."""
+    def one() -> str:
+        nm = rnd.choice(names) if names else 'alpha'
+        k = rnd.randrange(11)
+        if k <= 2:
+            return nm
+        if k == 3:
+            return nm[:rnd.randint(1, len(nm))] + '*'
+        if k == 4:
+            return rnd.choice(['a*', 'b*', 't*', 'al*', 'bet*', '*a', '*', '?????', 't?', '*l*'])
+        if k == 5:
+            return 'p:' + nm
+        if k == 6:
+            return rnd.choice(['p:', 'p*:', '*:' + nm, 'p:' + nm[:1] + '*', '?:' + nm])
+        if k == 7:
+            return nm[:-1] + '?'
+        if k == 8 and unmatched:
+            return rnd.choice(['zz', 'q:', 'q:' + nm, 'zz*', nm + 'x', 'p:zz'])
+        return nm
+    args = [one() for _ in range(rnd.choice([1, 1, 2, 2, 3]))]
+    r = rnd.random()
+    if r < 0.25:
+        args.append(args[0])                                   # the same argument twice
+    elif r < 0.5 and names:
+        nm = rnd.choice(names)
+        args += [nm, nm[:rnd.randint(1, len(nm))] + '*']        # a name and a pattern matching it
+    rnd.shuffle(args)
+    return args
+
+
+def gen_selection(rnd: random.Random, names: T.Optional[T.List[str]] = None, unmatched: bool = False,
+                  p_args: float = 0.45) -> T.Dict[str, T.Any]:
     inc = [gen_selector(rnd) for _ in range(rnd.choice([0, 0, 1, 1, 2]))]
     exc = [gen_selector(rnd) for _ in range(rnd.choice([0, 0, 0, 1]))]
-    return {'inc': inc, 'exc': exc, 'slice': None}
+    args: T.List[str] = []
+    if names is not None and rnd.random() < p_args:
+        args = gen_name_args(rnd, names, unmatched)
+        if rnd.random() < 0.6:
+            inc, exc = [], []
+    return {'inc': inc, 'exc': exc, 'slice': None, 'args': args}
+
+
+def query_of(s: T.Dict[str, T.Any], n: int, out: T.List[T.List[str]]) -> T.Dict[str, T.Any]:
+    return {'inc': s['inc'], 'exc': s['exc'], 'args': [list(a) for a in s.get('args', [])], 'n': n, 'out': out}
+
+
+def defs_of(tests: T.List[T.Dict[str, T.Any]]) -> T.List[T.Dict[str, T.Any]]:
+    return [{'name': t['name'], 'prj': 'p', 'prio': t['prio'], 'suites': t['suites'], 'nc': list(t['name']), 'pc': ['p']}
+            for t in tests]
+
+
+NONE_SEL: T.Dict[str, T.Any] = {'inc': [], 'exc': [], 'slice': None, 'args': []}
 
 
 def selection_args(s: T.Dict[str, T.Any]) -> T.List[str]:
@@ -120,6 +174,7 @@ def selection_args(s: T.Dict[str, T.Any]) -> T.List[str]:
         out += ['--no-suite', sel_text(x)]
     if s.get('slice'):
         out += ['--slice', '%d/%d' % tuple(s['slice'])]
+    out += list(s.get('args', []))
     return out
 
 
@@ -262,6 +317,7 @@ def make_case(cid: str, kind: str, tests: T.List[T.Dict[str, T.Any]], names: T.L
               recs: T.List[T.Tuple[str, int, str, int]], tally: T.Dict[str, int], rc: int) -> T.Dict[str, T.Any]:
     """Project one execution to the trace format of TraceTestSched."""
     by = {t['name']: t for t in tests}
+    names = list(dict.fromkeys(names))
     n = len(names)
     pos = {nm: i for i, nm in enumerate(names)}
 
@@ -338,9 +394,10 @@ def _cli_project_job(args: T.Tuple[str, int, int, int, T.Optional[T.List[T.Dict[
         else:
             tests = gen_tests(rnd, rnd.choice([3, 4, 4, 5, 5, 6]))
         bdir = setup_project(root, tests)
-        none_sel = {'inc': [], 'exc': [], 'slice': None}
+        none_sel = dict(NONE_SEL)
         base = list_tests(bdir, none_sel)
-        defs = [{'name': t['name'], 'prj': 'p', 'prio': t['prio'], 'suites': t['suites']} for t in tests]
+        defs = defs_of(tests)
+        tnames = [t['name'] for t in tests]
         queries = []
         listed: T.Dict[str, T.List[str]] = {json.dumps(none_sel, sort_keys=True): base}
 
@@ -351,13 +408,13 @@ def _cli_project_job(args: T.Tuple[str, int, int, int, T.Optional[T.List[T.Dict[
             return listed[key]
 
         for q in range(nsel):
-            s = gen_selection(rnd)
+            s = gen_selection(rnd, tnames, unmatched=True, p_args=0.6)
             full = listed_for(s)
-            queries.append({'inc': s['inc'], 'exc': s['exc'], 'n': 0, 'out': [full]})
+            queries.append(query_of(s, 0, [full]))
             if full and q % 2 == 0:
-                n = rnd.randint(1, len(full))
+                n = rnd.randint(1, len(set(full)))
                 outs = [listed_for(dict(s, slice=[i, n])) for i in range(1, n + 1)]
-                queries.append({'inc': s['inc'], 'exc': s['exc'], 'n': n, 'out': outs})
+                queries.append(query_of(s, n, outs))
         out['select'] = {'id': label, 'defs': defs, 'base': base, 'queries': queries, 'kind': 'cli'}
         for k in range(nruns):
             if patterns:
@@ -369,11 +426,12 @@ def _cli_project_job(args: T.Tuple[str, int, int, int, T.Optional[T.List[T.Dict[
             else:
                 opts = gen_runopts(rnd, tests)
                 selection = none_sel
-                if rnd.random() < 0.35:
-                    selection = gen_selection(rnd)
+                if rnd.random() < 0.45:
+                    selection = gen_selection(rnd, tnames, unmatched=False, p_args=0.6)
                     full = listed_for(selection)
-                    if full and rnd.random() < 0.5:
-                        n = rnd.randint(1, len(full))
+                    queries.append(query_of(selection, 0, [full]))
+                    if full and rnd.random() < 0.4:
+                        n = rnd.randint(1, len(set(full)))
                         selection = dict(selection, slice=[rnd.randint(1, n), n])
                 names = listed_for(selection)
                 if not names:
@@ -437,6 +495,19 @@ def _parse_opts(mt: T.Any, argv: T.List[str]) -> argparse.Namespace:
     return parser.parse_args(argv)
 
 
+def _ask(mt: T.Any, lo: argparse.Namespace) -> T.List[str]:
+    """The list the real code selects (TestHarness.get_tests); [] when it refuses the arguments."""
+    lo.no_rebuild = True
+    with contextlib.redirect_stdout(io.StringIO()), contextlib.redirect_stderr(io.StringIO()):   # "redundant name" warnings
+        with mt.TestHarness(lo) as th:
+            try:
+                return [t.name for t in th.get_tests(errorfile=io.StringIO())]
+            except Exception as e:
+                if type(e).__name__ != 'MesonException':
+                    raise
+                return []
+
+
 def virtual_run(cid: str, tests: T.List[T.Dict[str, T.Any]], selection: T.Dict[str, T.Any], opts: T.Dict[str, T.Any],
                 plan: T.Dict[str, T.Dict[str, T.List[int]]], lat: T.Dict[str, int]) -> T.Dict[str, T.Any]:
     """Drive mtest.run() on a fabricated test list under the virtual loop -> trace case.
@@ -451,8 +522,7 @@ def virtual_run(cid: str, tests: T.List[T.Dict[str, T.Any]], selection: T.Dict[s
     # the list as the real code selects it
     lo = _parse_opts(mt, argv + ['--list'])
     lo.no_rebuild = True
-    with mt.TestHarness(lo) as th:
-        names = [t.name for t in th.get_tests(errorfile=io.StringIO())]
+    names = _ask(mt, lo)
     if not names:
         return {'id': cid, 'skip': 'empty selection'}
     vplan = {}
@@ -526,9 +596,9 @@ def _virtual_job(args: T.Tuple[str, int, int]) -> T.Dict[str, T.Any]:
         opts = gen_runopts(rnd, tests)
         if rnd.random() < 0.3:
             opts['mult'] = rnd.choice([10, 100, 300])
-        selection = {'inc': [], 'exc': [], 'slice': None}
-        if rnd.random() < 0.25:
-            selection = gen_selection(rnd)
+        selection = dict(NONE_SEL)
+        if rnd.random() < 0.3:
+            selection = gen_selection(rnd, [t['name'] for t in tests], unmatched=False, p_args=0.7)
         if len(tests) * opts['R'] > 10:
             opts['R'] = max(1, 10 // len(tests))
         plan = gen_vplan(rnd, tests, opts['R'], opts['mult'])
@@ -548,22 +618,19 @@ def virtual_select(mt: T.Any, cid: str, tests: T.List[T.Dict[str, T.Any]], rnd: 
         pickle.dump(_fabricate(tests), f)
 
     def ask(s: T.Dict[str, T.Any]) -> T.List[str]:
-        o = _parse_opts(mt, ['-C', str(bdir), '--list'] + selection_args(s))
-        o.no_rebuild = True
-        with mt.TestHarness(o) as th:
-            return [t.name for t in th.get_tests(errorfile=io.StringIO())]
+        return _ask(mt, _parse_opts(mt, ['-C', str(bdir), '--list'] + selection_args(s)))
 
-    base = ask({'inc': [], 'exc': [], 'slice': None})
+    base = ask(NONE_SEL)
     queries = []
+    tnames = [t['name'] for t in tests]
     for q in range(6):
-        s = gen_selection(rnd)
+        s = gen_selection(rnd, tnames, unmatched=True, p_args=0.6)
         full = ask(s)
-        queries.append({'inc': s['inc'], 'exc': s['exc'], 'n': 0, 'out': [full]})
+        queries.append(query_of(s, 0, [full]))
         if full:
-            n = rnd.randint(1, len(full))
-            queries.append({'inc': s['inc'], 'exc': s['exc'], 'n': n,
-                            'out': [ask(dict(s, slice=[i, n])) for i in range(1, n + 1)]})
-    defs = [{'name': t['name'], 'prj': 'p', 'prio': t['prio'], 'suites': t['suites']} for t in tests]
+            n = rnd.randint(1, len(set(full)))
+            queries.append(query_of(s, n, [ask(dict(s, slice=[i, n])) for i in range(1, n + 1)]))
+    defs = defs_of(tests)
     return {'id': cid, 'defs': defs, 'base': base, 'queries': queries, 'kind': 'virtual'}
 
 
@@ -577,7 +644,7 @@ def _virtual_pattern_job(args: T.Tuple[str, T.List[T.Dict[str, T.Any]]]) -> T.Li
         plan = {t['name']: {} for t in tests}
         for (nm, it), d in pat['durs'].items():
             plan[nm][str(it)] = [d, pat['exits'][(nm, it)]]
-        case = virtual_run(f'{label}/{j}', tests, {'inc': [], 'exc': [], 'slice': None}, pat['opts'], plan, {})
+        case = virtual_run(f'{label}/{j}', tests, dict(NONE_SEL), pat['opts'], plan, {})
         case['kind'] = 'virtual-A'
         case['predicted'] = pat.get('order')
         out.append(case)
@@ -786,8 +853,9 @@ def judge_select(chk: Check, cases: T.List[T.Dict[str, T.Any]], label: str) -> N
         c = by_id.get(v.get('id'), {})
         q = c.get('queries', [])[v['query'] - 1] if v.get('query') else None
         sig = f"{v.get('clause')}|{c.get('kind')}|" + json.dumps(
-            {'defs': [[d['prio'], d['suites']] for d in c.get('defs', [])],
-             'q': None if q is None else [[sel_text(s) for s in q['inc']], [sel_text(s) for s in q['exc']], q['n']]},
+            {'defs': [[d['name'], d['prio'], d['suites']] for d in c.get('defs', [])],
+             'q': None if q is None else [[sel_text(s) for s in q['inc']], [sel_text(s) for s in q['exc']],
+                                           [''.join(a) for a in q.get('args', [])], q['n']]},
             sort_keys=True)
         chk.violation(sig, {'verdict': v, 'case': c, 'query': q})
 
@@ -836,6 +904,20 @@ CHECK_DEADLOCK FALSE
 '''
 
 
+SELECT_ARGS_CFG = '''SPECIFICATION Spec
+CONSTANTS MaxN = %d
+INVARIANTS
+  EachSelectedOnce
+  ExactlyTheMatched
+  ArgsAreUnion
+  RepeatedArgsIdempotent
+  ArgOrderIrrelevant
+  NoArgsKeepsAll
+  UnmatchedMeansSmaller
+CHECK_DEADLOCK FALSE
+'''
+
+
 def model_check(quick: bool) -> T.List[T.Tuple[str, T.Any]]:
     """TLC on the specifications alone (runs in a thread next to the drivers)."""
     runs = [('31+22/4kinds/flaky', '{31, 22}', '{"ok", "fail", "upass", "timeout"}', 'TRUE')]
@@ -854,6 +936,8 @@ def model_check(quick: bool) -> T.List[T.Tuple[str, T.Any]]:
         out.append((f'TestSched_MC[{name}]', res))
     res = run_tlc(FAM, 'TestSelect_MC', cfg_text=SELECT_CFG % (2 if quick else 3), timeout=3000, allow_violation=False)
     out.append(('TestSelect_MC', res))
+    res = run_tlc(FAM, 'TestSelectArgs_MC', cfg_text=SELECT_ARGS_CFG % (2 if quick else 3), timeout=3000, allow_violation=False)
+    out.append(('TestSelectArgs_MC', res))
     return out
 
 
@@ -968,7 +1052,9 @@ def main(chk: Check) -> None:
     chk.assumptions += [
         'single project, no subprojects: the bare --suite NAME form is only exercised where project and suite readings agree',
         'protocol exitcode only (TAP verdicts are C18); expected_exitcode, --wrapper, --gdb/--interactive, --setup, benchmarks, '
-        'test-name arguments and --exclude are not generated',
+        'and --exclude are not generated; positional test names use plain names, * and ? globs and the p: / p:name forms '
+        '(no [..] classes, no :name form); an argument matching no candidate test may make the command refuse and '
+        'list/run nothing (documentation silent) - such arguments are generated for --list queries only',
         'time limits: CLI runs use durations at least 7 s away from the effective limit (TraceTestSched names a RacyInput '
         'otherwise); the exact boundary is explored only under the virtual-time loop',
         'concurrency claims use only the order of the O_APPEND log written by the test programs (child interval inside the '
@@ -989,37 +1075,32 @@ def replay(chk: Check, data: T.Dict[str, T.Any]) -> None:
         c = det['case']
         tests = [{'name': d['name'], 'par': True, 'prio': d['prio'], 'sf': False, 'sfkw': 'should_fail', 'decl': None,
                   'suites': d['suites']} for d in c['defs']]
+
+        def sel_of(q: T.Dict[str, T.Any]) -> T.Dict[str, T.Any]:
+            return {'inc': q['inc'], 'exc': q['exc'], 'slice': None, 'args': [''.join(a) for a in q.get('args', [])]}
+
+        def reask(ask: T.Callable[[T.Dict[str, T.Any]], T.List[str]]) -> T.Dict[str, T.Any]:
+            nc = {'id': 'replay', 'kind': c.get('kind'), 'defs': defs_of(tests), 'base': ask(NONE_SEL), 'queries': []}
+            for q in c['queries']:
+                sq = sel_of(q)
+                outs = [ask(sq)] if q['n'] == 0 else [ask(dict(sq, slice=[i, q['n']])) for i in range(1, q['n'] + 1)]
+                nc['queries'].append(query_of(sq, q['n'], outs))
+            return nc
+
         if c.get('kind') == 'virtual':
             common.use_repo_meson()
             _virtual_setup()
             from mesonbuild import mtest as mt
             base_order = {n: i for i, n in enumerate(c['base'])}
             tests.sort(key=lambda t: base_order.get(t['name'], 0))
-            rnd = random.Random(0)
-            nc = virtual_select(mt, 'replay', tests, rnd)
-            nc['queries'] = []
-
-            def ask(s: T.Dict[str, T.Any]) -> T.List[str]:
-                o = _parse_opts(mt, ['-C', str(_V['bdir']), '--list'] + selection_args(s))
-                o.no_rebuild = True
-                with mt.TestHarness(o) as th:
-                    return [t.name for t in th.get_tests(errorfile=io.StringIO())]
-            for q in c['queries']:
-                s = {'inc': q['inc'], 'exc': q['exc'], 'slice': None}
-                outs = [ask(s)] if q['n'] == 0 else [ask(dict(s, slice=[i, q['n']])) for i in range(1, q['n'] + 1)]
-                nc['queries'].append(dict(q, out=outs))
-            judge_select(chk, [nc], 'replay')
+            with _V['dat'].open('wb') as f:
+                pickle.dump(_fabricate(tests), f)
+            judge_select(chk, [reask(lambda sq: _ask(mt, _parse_opts(mt, ['-C', str(_V['bdir']), '--list'] + selection_args(sq))))],
+                         'replay')
         else:
             with scratch('c12-r-') as root:
                 bdir = setup_project(root, tests)
-                none_sel = {'inc': [], 'exc': [], 'slice': None}
-                nc = {'id': 'replay', 'kind': 'cli', 'defs': c['defs'], 'base': list_tests(bdir, none_sel), 'queries': []}
-                for q in c['queries']:
-                    s = {'inc': q['inc'], 'exc': q['exc'], 'slice': None}
-                    outs = [list_tests(bdir, s)] if q['n'] == 0 else \
-                        [list_tests(bdir, dict(s, slice=[i, q['n']])) for i in range(1, q['n'] + 1)]
-                    nc['queries'].append(dict(q, out=outs))
-                judge_select(chk, [nc], 'replay')
+                judge_select(chk, [reask(lambda sq: list_tests(bdir, sq))], 'replay')
         return
     rp = det.get('repro')
     if not rp:
